@@ -93,3 +93,6 @@ class ConcreteCtx(BaseCtx):
 
     def pin_all(self, where=""):
         pass
+
+    def cross_check(self, good, label, timeout_s=120):
+        return {}
